@@ -1,32 +1,27 @@
 #!/usr/bin/env python3
-"""mkmanifest.py — (re)generate /verif/MANIFEST.json from the table below. Properties without a harness + property file are
-listed under not_applicable with the reason 'not built yet' until they are."""
+"""mkmanifest.py — (re)generate /verif/MANIFEST.json from manifest.d/Cxx.json (one file per claimed property:
+{category, text, level_note, technique, design_ref}).  A property is claimed only if manifest.d/Cxx.json,
+harness/cxx.py and lean/GraphiqModel/Properties/Cxx.lean all exist; every other property is listed under not_applicable
+with the reason in manifest.d/Cxx.na (one line) or 'not built yet'."""
 import json, os
 V = os.path.dirname(os.path.dirname(os.path.abspath(__file__)))
 BASE = "cd /repo && /venv/bin/python -m pytest -ra -q -p no:cacheprovider --timeout=900 --continue-on-collection-errors"
-TB = ("Trusted: Lean 4.33 kernel + axioms propext/Classical.choice/Quot.sound only (audited per theorem on every run, no sorry/native_decide/"
-      "bv_decide/own axioms); the hand-written Lean model, tied to /repo by the correspondence run (differential testing on generated inputs, "
-      "so bounded by generator quality) and by exhaustively regenerated finite tables re-proved by kernel decide; the Python harness, line "
-      "protocol and driver parser/printer. ")
-P = {
- "C07": dict(
-    text="Unbounded theorems (Lean 4): every gate of the tableau API acts row-wise as an automorphism of the signed n-qubit Pauli group with the "
-         "textbook generator images (all n); Valid (symplectic pairing) is preserved by gates, swap, Z-measurement (both branches), resets and qubit "
-         "insertion, hence by every finite history of them (induction); measurement implements the textbook update; insertion adds an unentangled "
-         "+Z_p. Tie to the code: every API call is run on the real implementation and on the model from the implementation's own state and compared "
-         "exactly; a dense reference simulator (n<=5) and validity/span checks are the direct oracle used to find failing inputs.",
-    note=TB + "Partial: Valid-preservation of remove_qubit / partial_trace / tensor is not yet a theorem (evaluated by the model on every input, "
-         "and by the dense oracle for n<=5). Tensor lifting of Pauli-group semantics to Hilbert space is cited mathematics.",
-    tech="Lean 4 proof (induction over operation histories, Pauli-group automorphisms) + model/implementation correspondence", ref="DESIGN §4 C07"),
-}
+TB = ("Trusted: Lean 4.33 kernel + axioms propext/Classical.choice/Quot.sound only (audited per theorem on every run; no sorry, native_decide, "
+      "bv_decide or own axioms); the hand-written Lean model, tied to /repo by the correspondence run (differential testing on generated inputs, "
+      "so bounded by generator quality) and by exhaustively regenerated finite tables re-proved by kernel decide; the Python harness, the line "
+      "protocol and the driver's parser/printer. ")
 ALL = [f"C{i:02d}" for i in range(1, 21)]
 checks, na = [], []
 for pid in ALL:
-    built = os.path.exists(f"{V}/harness/{pid.lower()}.py") and os.path.exists(f"{V}/lean/GraphiqModel/Properties/{pid}.lean") and pid in P
+    mf = f"{V}/manifest.d/{pid}.json"
+    built = os.path.exists(mf) and os.path.exists(f"{V}/harness/{pid.lower()}.py") and os.path.exists(f"{V}/lean/GraphiqModel/Properties/{pid}.lean")
     if not built:
-        na.append({"property_id": pid, "reason": "check not built yet in this round (planned: Lean 4 model + theorems + correspondence, see DESIGN.md §4)"})
+        naf = f"{V}/manifest.d/{pid}.na"
+        reason = open(naf).read().strip() if os.path.exists(naf) else \
+            "check not built yet in this round (planned: Lean 4 model + theorems + correspondence, see DESIGN.md §4)"
+        na.append({"property_id": pid, "reason": reason})
         continue
-    m = P[pid]
+    m = json.load(open(mf))
     checks.append({
         "property_id": pid,
         "quick_cmd": f"./check {pid} --tier quick",
@@ -34,9 +29,9 @@ for pid in ALL:
         "evidence_file": f"/verif/evidence/{pid}.json",
         "replay_cmd_template": f"./check {pid} --replay {{path}}",
         "engine": "lean4-model+correspondence",
-        "level_claimed": {"category": m.get("cat", "proof"), "text": m["text"], "design_ref": m["ref"]},
-        "level_note": m["note"],
-        "technique": m["tech"],
+        "level_claimed": {"category": m.get("category", "proof"), "text": m["text"], "design_ref": m.get("design_ref", "DESIGN §4")},
+        "level_note": TB + m["level_note"],
+        "technique": m["technique"],
     })
 man = {
  "version": 1,
